@@ -180,7 +180,7 @@ def setattr_rules(ctx, rep: Report, rule: str, aspects=("forward", "prepare", "d
     if "default" in aspects:
         reads = [x for x in ast.walk(dn) if isinstance(x, ast.Attribute) and x.attr in ("default", "default_value", "default_factory") and isinstance(x.ctx, ast.Load)]
         looks = [c for c in ast.walk(dn) if isinstance(c, ast.Call) and ast.unparse(c.func).endswith("lookup_default_value")]
-        if not looks:
+        if not looks and not reads:
             raise AnalysisError(f"{rule}: __delattr__ no longer calls lookup_default_value")
         ok = not reads and all(c.args and ast.unparse(c.args[0]) in ("self.__class__", "type(self)") for c in looks)
         rep.oblige(rule, "__delattr__: default source", ok)
